@@ -60,12 +60,15 @@ class Lexer(object):
 
     @TOKEN(r'("(\\.|[^"\\])*")|(\'(\\.|[^\'\\])*\')')
     def t_STRING(self, t):
+        t.lexer.lineno += t.value.count("\n")
         t.value = t.value.strip("\"'").encode().decode("unicode_escape")
         return t
 
     @TOKEN(r"[\r\n]+")
     def t_newline(self, t):
-        t.lexer.lineno += len(t.value)
+        t.lexer.lineno += (
+            t.value.count("\n") + t.value.count("\r") - t.value.count("\r\n")
+        )
 
     def t_error(self, t):
         raise SyntaxError("Illegal character {0} at position {1}".format(t.value[0], t.lexpos))
@@ -109,7 +112,7 @@ class Parser(object):
         command : ID EQUAL ID arguments
         """
 
-        p[0] = CommandNode(p[1], p[3], p[4], p.lineno(3))
+        p[0] = CommandNode(p[1], p[3], p[4], p.lineno(1))
 
     def p_eems2_command(self, p):
         """
@@ -297,5 +300,7 @@ class Parser(object):
     def parse(self, source):
         # type: (str) -> ProgramNode
         """ Parses the source text into a program structure """
+
+        self.lexer.lineno = 1
 
         return self.parser.parse(source, lexer=self.lexer, tracking=True)
